@@ -149,8 +149,8 @@ def scenario(case, prefix):
     saved = [(m, k, getattr(m, k)) for m, k, _v in todo]
     for m, k, v in todo:
         setattr(m, k, v)
-    th.instrument(*funcs)
     s = th.Sched(prefix, horizon=8000)
+    s.active = th.instrument(*funcs)
     fs = FakeScheduler(root)
     jobs = [FakeJob(i) for i in range(case["jobs"])]
     res = {}
